@@ -119,13 +119,13 @@ func (g *c22Cfg) has(p int) int {
 func (g *c22Cfg) moduleCode(i int) string {
 	p := g.set[i]
 	var b strings.Builder
-	fmt.Fprintf(&b, "c22ev %d\nvar c = (num 0)\n", p)
+	fmt.Fprintf(&b, "c22ev %d\nvar c = 0\n", p)
 	for j, k := range g.edges[i] {
 		if k == c22None {
 			continue
 		}
 		q := g.set[j]
-		fmt.Fprintf(&b, "use %s x%d\nset x%d:c = (+ $x%d:c 1)\nc22obs %d %d $x%d:c\n", c22Spec(c22PathDir[p], q, k), q, q, q, p, q, q)
+		fmt.Fprintf(&b, "use %s x%d\nc22obs %d %d $x%d:\n", c22Spec(c22PathDir[p], q, k), q, p, q, q)
 	}
 	fmt.Fprintf(&b, "c22fin %d\n", p)
 	return b.String()
@@ -232,8 +232,23 @@ func (r *c22Run) fns() map[string]any {
 			}
 			return nil
 		},
-		"c22obs": func(i, q int, v any) {
-			r.log = append(r.log, fmt.Sprintf("O %d %d %v", i, q, v))
+		// c22obs importer target $ns: increments variable c of the imported
+		// namespace (what `set ns:c = (+ $ns:c 1)` does, without the cost of an
+		// output capture) and logs the new value.
+		"c22obs": func(i, q int, ns *eval.Ns) error {
+			v := ns.IndexString("c")
+			if v == nil {
+				return errors.New("c22: imported namespace has no variable c")
+			}
+			n, err := strconv.Atoi(fmt.Sprint(v.Get()))
+			if err != nil {
+				return fmt.Errorf("c22: variable c of the imported namespace is %v", v.Get())
+			}
+			if err := v.Set(strconv.Itoa(n + 1)); err != nil {
+				return err
+			}
+			r.log = append(r.log, fmt.Sprintf("O %d %d %d", i, q, n+1))
+			return nil
 		},
 		"c22fin": func(p int) error {
 			i := r.g.has(p)
@@ -308,7 +323,7 @@ func c22StepLine(from int, s c22Step, w *c22Worker) string {
 	if s.Op == c22Toggle {
 		return "cd " + w.abs(c22DirName[s.Tgt])
 	}
-	return fmt.Sprintf("try { use %s x; set x:c = (+ $x:c 1); c22obs %d %d $x:c; c22ok } catch e { c22exc $e }",
+	return fmt.Sprintf("try { use %s x; c22obs %d %d $x:; c22ok } catch e { c22exc $e }",
 		c22Spec(from, s.Tgt, s.Op), c22Top, s.Tgt)
 }
 
@@ -394,6 +409,11 @@ type c22Bounds struct {
 	MaxEdges  int // -1 = unbounded
 	MaxFail   int // max modules with a failing mode
 	Steps     int // max session length
+	// "all": script files in lib, lib/d and their parent (imports of present modules),
+	// -c code, prompt lines, and rc file + prompt lines (the latter three with cd steps
+	// and imports of absent twins); "cd": the latter three, only sessions containing a
+	// cd; "two": script in lib/d and prompt lines; "tty": prompt lines.
+	Drivers string
 }
 
 func c22BoundsFor(tier string) []c22Bounds {
@@ -403,18 +423,28 @@ func c22BoundsFor(tier string) []c22Bounds {
 	four := [][]int{{0, 1, 2, 3}}
 	if tier == "thorough" {
 		return []c22Bounds{
-			{Sets: one, SelfLoops: true, Kinds: 4, MaxEdges: -1, MaxFail: 1, Steps: 4},
-			{Sets: two, SelfLoops: true, Kinds: 4, MaxEdges: -1, MaxFail: 2, Steps: 3},
-			{Sets: three, SelfLoops: false, Kinds: 3, MaxEdges: -1, MaxFail: 3, Steps: 2},
-			{Sets: three, SelfLoops: false, Kinds: 3, MaxEdges: 3, MaxFail: 1, Steps: 3},
-			{Sets: four, SelfLoops: false, Kinds: 3, MaxEdges: 4, MaxFail: 1, Steps: 2},
+			{Sets: one, SelfLoops: true, Kinds: 4, MaxEdges: -1, MaxFail: 1, Steps: 4, Drivers: "all"},
+			{Sets: two, SelfLoops: false, Kinds: 4, MaxEdges: -1, MaxFail: 2, Steps: 3, Drivers: "all"},
+			{Sets: two, SelfLoops: true, Kinds: 4, MaxEdges: -1, MaxFail: 1, Steps: 2, Drivers: "two"},
+			{Sets: two, SelfLoops: true, Kinds: 3, MaxEdges: -1, MaxFail: 1, Steps: 3, Drivers: "two"},
+			{Sets: three, SelfLoops: false, Kinds: 3, MaxEdges: -1, MaxFail: 1, Steps: 2, Drivers: "two"},
+			{Sets: three, SelfLoops: false, Kinds: 3, MaxEdges: 2, MaxFail: 1, Steps: 2, Drivers: "all"},
+			{Sets: three, SelfLoops: false, Kinds: 3, MaxEdges: 2, MaxFail: 1, Steps: 3, Drivers: "cd"},
+			{Sets: three, SelfLoops: false, Kinds: 3, MaxEdges: 3, MaxFail: 2, Steps: 2, Drivers: "two"},
+			{Sets: three, SelfLoops: false, Kinds: 3, MaxEdges: 3, MaxFail: 1, Steps: 3, Drivers: "tty"},
+			{Sets: four, SelfLoops: false, Kinds: 3, MaxEdges: 2, MaxFail: 1, Steps: 2, Drivers: "tty"},
+			{Sets: four, SelfLoops: false, Kinds: 3, MaxEdges: 4, MaxFail: 0, Steps: 2, Drivers: "tty"},
 		}
 	}
 	return []c22Bounds{
-		{Sets: one, SelfLoops: true, Kinds: 4, MaxEdges: -1, MaxFail: 1, Steps: 3},
-		{Sets: two, SelfLoops: true, Kinds: 3, MaxEdges: -1, MaxFail: 2, Steps: 3},
-		{Sets: two, SelfLoops: false, Kinds: 4, MaxEdges: -1, MaxFail: 1, Steps: 2},
-		{Sets: three, SelfLoops: false, Kinds: 3, MaxEdges: -1, MaxFail: 1, Steps: 2},
+		{Sets: one, SelfLoops: true, Kinds: 4, MaxEdges: -1, MaxFail: 1, Steps: 3, Drivers: "all"},
+		{Sets: two, SelfLoops: false, Kinds: 3, MaxEdges: -1, MaxFail: 1, Steps: 2, Drivers: "all"},
+		{Sets: two, SelfLoops: false, Kinds: 3, MaxEdges: -1, MaxFail: 1, Steps: 3, Drivers: "cd"},
+		{Sets: two, SelfLoops: true, Kinds: 3, MaxEdges: -1, MaxFail: 1, Steps: 2, Drivers: "two"},
+		{Sets: two, SelfLoops: false, Kinds: 4, MaxEdges: -1, MaxFail: 1, Steps: 2, Drivers: "two"},
+		{Sets: three, SelfLoops: false, Kinds: 3, MaxEdges: -1, MaxFail: 0, Steps: 1, Drivers: "two"},
+		{Sets: three, SelfLoops: false, Kinds: 3, MaxEdges: -1, MaxFail: 0, Steps: 2, Drivers: "tty"},
+		{Sets: three, SelfLoops: false, Kinds: 3, MaxEdges: 2, MaxFail: 1, Steps: 2, Drivers: "tty"},
 	}
 }
 
@@ -423,8 +453,8 @@ func (b c22Bounds) String() string {
 	if b.MaxEdges >= 0 {
 		me = fmt.Sprintf("<=%d", b.MaxEdges)
 	}
-	return fmt.Sprintf("{module sets %v; %s import edges of %d kinds, self-imports %v; <=%d failing modules; sessions of <=%d steps}",
-		b.Sets, me, b.Kinds-1, b.SelfLoops, b.MaxFail, b.Steps)
+	return fmt.Sprintf("{module sets %v; %s import edges of %d kinds, self-imports %v; <=%d failing modules; sessions of <=%d steps; front ends: %s}",
+		b.Sets, me, b.Kinds-1, b.SelfLoops, b.MaxFail, b.Steps, b.Drivers)
 }
 
 // c22Graphs calls f for every edge assignment of the block's set.
@@ -516,7 +546,7 @@ type c22Sess struct {
 	steps []c22Step
 }
 
-func c22Sessions(set []int, maxSteps int) []c22Sess {
+func c22Sessions(set []int, maxSteps int, drivers string) []c22Sess {
 	present := map[int]bool{}
 	for _, p := range set {
 		present[p] = true
@@ -535,6 +565,7 @@ func c22Sessions(set []int, maxSteps int) []c22Sess {
 	var out []c22Sess
 	for n := 1; n <= maxSteps; n++ {
 		idx := make([]int, n)
+		needToggle := drivers == "cd"
 		gen := func(syms []c22Step, drivers []c22Driver) {
 			for i := range idx {
 				idx[i] = 0
@@ -546,6 +577,14 @@ func c22Sessions(set []int, maxSteps int) []c22Sess {
 					steps[i] = syms[x]
 					if steps[i].Op == c22Toggle && (i == n-1 || i > 0 && steps[i-1].Op == c22Toggle) {
 						ok = false
+					}
+				}
+				if ok && needToggle {
+					ok = false
+					for _, st := range steps {
+						if st.Op == c22Toggle {
+							ok = true
+						}
 					}
 				}
 				if ok {
@@ -568,8 +607,17 @@ func c22Sessions(set []int, maxSteps int) []c22Sess {
 				}
 			}
 		}
-		gen(fileSyms, []c22Driver{{Kind: 'S', Loc: 0}, {Kind: 'S', Loc: 1}, {Kind: 'S', Loc: 2}})
-		gen(cwdSyms, []c22Driver{{Kind: 'C'}, {Kind: 'T', RC: 0}, {Kind: 'T', RC: 1}})
+		switch drivers {
+		case "all":
+			gen(fileSyms, []c22Driver{{Kind: 'S', Loc: 0}, {Kind: 'S', Loc: 1}, {Kind: 'S', Loc: 2}})
+			gen(cwdSyms, []c22Driver{{Kind: 'C'}, {Kind: 'T', RC: 0}, {Kind: 'T', RC: 1}})
+		case "cd":
+			gen(cwdSyms, []c22Driver{{Kind: 'C'}, {Kind: 'T', RC: 0}, {Kind: 'T', RC: 1}})
+		case "two":
+			gen(fileSyms, []c22Driver{{Kind: 'S', Loc: 1}, {Kind: 'T', RC: 0}})
+		default:
+			gen(fileSyms, []c22Driver{{Kind: 'T', RC: 0}})
+		}
 	}
 	return out
 }
@@ -753,7 +801,7 @@ func c22WorkerMain() {
 	var unit int64
 	for _, b := range c22BoundsFor(tier) {
 		for _, set := range b.Sets {
-			sessions := c22Sessions(set, b.Steps)
+			sessions := c22Sessions(set, b.Steps, b.Drivers)
 			fails := c22Fails(len(set), b.MaxFail)
 			c22Graphs(b, set, func(edges [][]int, ne int) {
 				unit++
@@ -854,7 +902,7 @@ func TestVerifC22(t *testing.T) {
 		}
 		c.Rule("module files among " + fmt.Sprint(c22Paths) + " (.elv; lib is the module search directory); blocks " + strings.Join(bs, ", ") +
 			": every assignment of {no import, relative import, search-directory import[, relative import with a redundant d/.. component]} to every ordered pair of modules, every assignment of {never fails, always fails after its imports, fails on first evaluation only} to the modules, and every session: sequences of steps {import module X relatively, import X by search directory, (non-file code only:) import the absent twin of a present module relatively, cd to the other one of lib and lib/d}, each run in a fresh interpreter as a script file in lib, lib/d or their parent, as -c code, as prompt lines, and as an rc file (first step) followed by prompt lines; graphs in odometer order, sessions shortest first; class = (front end, modules, edges per kind, self-imports, failure modes, cds, evaluations demanded, re-evaluation demanded, outcome of each import)")
-		c.Assume("the evaluation count and the shared namespace are observed through harness builtins (c22ev at module start, c22obs after incrementing the imported module's variable c, c22fin raising the module's failure) added with Evaler.ExtendBuiltin",
+		c.Assume("the evaluation count and the shared namespace are observed through harness builtins (c22ev at module start, c22obs incrementing the imported namespace's variable c and logging it, c22fin raising the module's failure) added with Evaler.ExtendBuiltin",
 			"sessions run through the real front ends script() and interact() of pkg/shell with a fresh Evaler per case; cases are sharded over worker processes because the working directory is process-global",
 			"not covered: concurrent imports (C39), plugin (.so) modules, bundled modules, symbolic links, several search directories, module specs outside the alphabet",
 			"a module whose evaluation count exceeds 20 in one interpreter is stopped by the harness builtin (horizon) and reported")
@@ -888,7 +936,7 @@ func TestVerifC22(t *testing.T) {
 			go func(k int) {
 				defer wg.Done()
 				cmd := exec.Command(self, "-test.run", "^TestVerifC22$", "-test.timeout", "0")
-				cmd.Env = append(os.Environ(), fmt.Sprintf("C22_WORKER=%d/%d", k, n), fmt.Sprintf("C22_DEADLINE=%d", deadline), "GOMAXPROCS=2")
+				cmd.Env = append(os.Environ(), fmt.Sprintf("C22_WORKER=%d/%d", k, n), fmt.Sprintf("C22_DEADLINE=%d", deadline), "GOMAXPROCS=1")
 				cmd.Stderr = os.Stderr
 				out, err := cmd.StdoutPipe()
 				if err != nil {
